@@ -145,6 +145,33 @@ NEED_CLASSES = ["bitflip", "byte-boundary", "truncate", "adaptive:remainder+vani
                 "edit:fri-layer-added", "edit:gkr-proof-added", "edit:trace-meta", "field:nq", "field:nonce"]
 
 
+# Element-level tamper family (coverage round): noncanonical:<component>:<value kind>:<base field | Rescue hasher>.
+# ONE base-field word of an element-bearing component of an accepted proof is overwritten with the modulus, modulus + 1,
+# all ones, or modulus + (original value).  The last is the SAME residue in another encoding: changed content (the property
+# excludes alternative encodings of digests only), so every cell of the element-bearing components must be refused.
+# Digest limbs (Rescue): the readers reduce; a different residue must be refused, the same residue is the exclusion.
+NC_ELEMENT = ["ood.trace", "ood.evals", "tq0.values", "tq1.values", "cq.values", "fri.values", "fri.remainder"]
+NC_NEED = ([f"noncanonical:{c}:{k}:{f}" for f in ("f64", "f128", "f62") for c in NC_ELEMENT for k in ("mod", "mod+1", "ones", "same")]
+           + [f"noncanonical:ood.lagrange:{k}:{f}" for f in ("f64", "f128", "f62") for k in ("mod", "mod+1", "ones")]
+           + [f"noncanonical:digest.{c}:{k}:{h}" for h in ("rp64_256", "rpjive64_256", "rp62_248") for c in ("commitments", "paths") for k in ("mod", "mod+1", "ones")])
+
+
+def _noncanonical_obligations(ctx, classes):
+    missing = [c for c in NC_NEED if classes.get(c, {}).get("mutants", 0) == 0]
+    ctx.ob("noncanonical-cells-all-sampled", not missing, f"{len(missing)} of {len(NC_NEED)} (component, value kind, field) cells without a mutant: " + ", ".join(missing[:8]))
+    bad = []
+    for c, st in sorted(classes.items()):
+        if not c.startswith("noncanonical:") or st.get("mutants", 0) == 0:
+            continue
+        digest = c.split(":")[1].startswith("digest.")
+        refused = st.get("rejected", 0) + st.get("parse_err", 0) + (st.get("same_content", 0) if digest else 0)
+        if refused != st["mutants"] or st.get("panics", 0) or st.get("accepted_diff", 0):
+            bad.append(f"{c}: {st}")
+    ctx.ob("noncanonical-cells-all-refused", not bad, "cells with a mutant that was not refused (accepted, panicked, or decoded to the same content): " + "; ".join(bad[:5]))
+    ctx.notes["noncanonical"] = {"cells_required": len(NC_NEED), "cells_sampled": sum(1 for c in classes if c.startswith("noncanonical:") and classes[c].get("mutants", 0)),
+                                 "mutants": sum(st.get("mutants", 0) for c, st in classes.items() if c.startswith("noncanonical:"))}
+
+
 def _falsify(ctx, hb, n_cfg, maxb):
     cmd = [hb, "falsify", str(ctx.seed), str(n_cfg), str(maxb)]
     rc, out, _ = vcheck.sh(cmd, timeout=1500)
@@ -173,6 +200,7 @@ def _falsify(ctx, hb, n_cfg, maxb):
            f"configs line: {configs} (expected {2 * n_cfg} accepted proofs; honest proofs rejected or not generated)")
     missing = [c for c in NEED_CLASSES if classes.get(c, {}).get("mutants", 0) == 0]
     ctx.ob("falsifier-reaches-all-classes", not missing, "mutation classes without a single mutant: " + ", ".join(missing))
+    _noncanonical_obligations(ctx, classes)
     ctx.notes["falsifier"] = {"cmd": " ".join(cmd[1:]), "reported_failures": nfail, "summary": summary, "configs": configs,
                               "classes": {k: v for k, v in sorted(classes.items())}}
     for c in sorted(classes):
@@ -189,7 +217,10 @@ def run(ctx):
                 "by ordered text anchors; falsifier: exhaustive single-bit flips of small proofs, boundary bytes, truncation/extension of the "
                 "proof and of EVERY length-prefixed component, structure-aware extension of the count-prefixed parts of every batch Merkle proof (surplus node vector / digest with count bytes and length fixed), every fixed-width field x boundary values, structural edits, and the "
                 "position-dependent substitutions (remainder + multiple of the vanishing polynomial of the folded positions, with and without "
-                "recomputed commitment; swapped / duplicated rows; replaced / swapped Merkle nodes; OOD values); oracle: decoded content differs "
+                "recomputed commitment; swapped / duplicated rows; replaced / swapped Merkle nodes; OOD values), and the element-level family "
+                "noncanonical:<component>:<kind>:<field> (ONE base-field word - first/middle/last element, every limb of an extension element - of the OOD trace states / evaluations / "
+                "Lagrange kernel states, opened main / auxiliary / constraint rows, FRI rows, remainder, and of Rescue digests, overwritten with modulus, modulus+1, all ones, "
+                "modulus+original value, on dedicated accepted proofs over f64 / f128 / f62 incl. all-zero traces and a Lagrange-kernel AIR; every cell must be sampled and refused); oracle: decoded content differs "
                 "=> rejected or parse error; distinct = distinct shapes + mutation classes")
     ctx.assumptions += [
         "in scope: AIRs without a Lagrange-kernel column (no GKR sub-protocol), at most one auxiliary trace segment (all that TraceInfo describes)",
